@@ -1236,6 +1236,10 @@ def expires_after(
     )
 
     def cache_validation_callback(metadata):
+        if "time" not in metadata:
+            # The metadata of this cache entry is missing or unreadable (e.g.
+            # the process was killed before writing it): recompute.
+            return False
         computation_age = time.time() - metadata["time"]
         return computation_age < delta.total_seconds()
 
